@@ -14,6 +14,13 @@ package main
 //	repair <v>           trie at version v over the damaged store, MergeDB(donor, root, nil) with a donor MemoryNodeDB that
 //	                     holds the removed nodes (inserted in shuffled order)
 //	                     -> "ok <root> has=<bool> miss=<keys|-> donor=<same|changed>"; later ops read the repaired store
+//	restore <raw|mergestate|othertrie>   the removed nodes come back THROUGH THE STORE (raw put / util.MergeState from a
+//	                     donor / MergeDB on ANOTHER trie over the same store); the trie object that ran the earlier queries
+//	                     is KEPT, later has/miss/get/iter/mkeys go through it -> "ok"
+//	mkeys                GetMissingNodeKeys of the querying trie (keys its reads found absent so far) -> "ok <sorted set|->"
+//	cwalk                for n = 1..R+1 (R = node reads of an undisturbed HasMissingNodes walk): fresh trie over the store
+//	                     wrapped so that the n-th GetNode cancels the context; HasMissingNodes(ctx) and Iterate(ctx)
+//	                     -> "ok <n>:<has>/<iter class>;..."  (ctx = the context's error)
 //	sweep1 | sweepsub | all   composite: for every single non-root node / every subtree / every subset of the non-root
 //	                     nodes (tries of <= 10 nodes, else "skip"): damage a memory copy, query, repair at a version that
 //	                     alternates between the creation version and a different one
@@ -24,11 +31,13 @@ package main
 // has == (some node reachable through present nodes is absent); miss == exactly that set; a lookup whose walk crosses an
 // absent node gives nodenotfound, any other lookup gives the history's map answer; after repair the store again
 // holds every node, re-computes to the root, has == false, the content is the history's content, and the donor's keys,
-// bytes and key==hash are unchanged.
+// bytes and key==hash are unchanged. A walk whose context expires on the way returns the context's error or exactly the
+// undisturbed answer: never "missing" for a complete store, never "complete" for a damaged one.
 
 import (
 	"bytes"
 	"context"
+	"errors"
 	"fmt"
 	"math/rand"
 	"sort"
@@ -180,6 +189,29 @@ func sameRaw(a, b rawStore) bool {
 		}
 	}
 	return true
+}
+
+// countingDB counts GetNode calls and cancels a context at the at-th one.
+type countingDB struct {
+	util.NodeDB
+	n, at  int64
+	cancel func()
+}
+
+func (c *countingDB) GetNode(k util.Key) (util.Node, error) {
+	n, err := c.NodeDB.GetNode(k)
+	c.n++
+	if c.n == c.at && c.cancel != nil {
+		c.cancel()
+	}
+	return n, err
+}
+
+func ctxKind(err error) string {
+	if errors.Is(err, context.Canceled) || errors.Is(err, context.DeadlineExceeded) {
+		return "ctx"
+	}
+	return errKind(err)
 }
 
 func hasMissingStr(mpt *util.MerklePatriciaTrie) string {
@@ -559,6 +591,105 @@ func runC17(ops []string) CaseResult {
 			} else if strings.HasPrefix(out, "ok") || out == "panic" {
 				fail("iteration over a trie with absent nodes returned %q", out)
 			}
+		case "restore":
+			out = guard(func() string {
+				donor := util.NewMemoryNodeDB()
+				for _, k := range st.removed {
+					n, err := st.db.GetNode(util.Key(k))
+					if err != nil {
+						panic("frozen store lost node")
+					}
+					_ = donor.PutNode(util.Key(k), n)
+				}
+				switch f[1] {
+				case "raw":
+					for _, k := range st.removed {
+						if st.curDir != "" {
+							grocksdb.FakeRawPut(st.curDir, []byte(k), st.full[k])
+						} else {
+							n, _ := st.db.GetNode(util.Key(k))
+							_ = st.cur.PutNode(util.Key(k), n)
+						}
+					}
+				case "mergestate":
+					if err := util.MergeState(context.Background(), donor, st.cur); err != nil {
+						return errKind(err)
+					}
+				default:
+					other := newMPT(st.cur, st.version+1, st.root)
+					if err := other.MergeDB(donor, st.root, nil); err != nil {
+						return errKind(err)
+					}
+				}
+				return "ok"
+			})
+			if len(st.removed) > 0 {
+				tags["restore-through-store:"+f[1]] = true
+				repairs++
+			}
+			st.curRaw, st.removed = st.full, nil
+		case "mkeys":
+			var ks []string
+			for _, k := range st.curMpt.GetMissingNodeKeys() {
+				ks = append(ks, string(k))
+			}
+			out = "ok " + fmtKeys(ks)
+			for _, k := range ks {
+				if _, ok := st.full[k]; !ok && !(k == "" && len(st.root) == 0) { // the empty trie's nil root key is read by GetAllMissingNodes
+					fail("GetMissingNodeKeys lists %s, which is not a node of the trie", hx([]byte(k)))
+				}
+			}
+		case "cwalk":
+			_, absent, _ := walkReach(st.curRaw, st.root)
+			wantHas := strconv.FormatBool(len(absent) > 0)
+			// R = reads of an undisturbed walk
+			probe := &countingDB{NodeDB: st.cur}
+			hasMissingStr(newMPT(probe, st.version, st.root))
+			var recs []string
+			for n := int64(1); n <= probe.n+1; n++ {
+				ctx, cancel := context.WithCancel(context.Background())
+				hs := guard(func() string {
+					b, err := newMPT(&countingDB{NodeDB: st.cur, at: n, cancel: cancel}, st.version, st.root).HasMissingNodes(ctx)
+					if err != nil {
+						return ctxKind(err)
+					}
+					return strconv.FormatBool(b)
+				})
+				cancel()
+				if hs != "ctx" && hs != wantHas {
+					fail("context cancelled at node read %d of %d: HasMissingNodes = %s (the store's answer is %s)", n, probe.n, hs, wantHas)
+				}
+				ctx2, cancel2 := context.WithCancel(context.Background())
+				var ps []pair
+				is := guard(func() string {
+					m := newMPT(&countingDB{NodeDB: st.cur, at: n, cancel: cancel2}, st.version, st.root)
+					err := m.Iterate(ctx2, func(_ context.Context, path util.Path, _ util.Key, node util.Node) error {
+						if vn, ok := node.(*util.ValueNode); ok && node != nil {
+							ps = append(ps, pair{string(append([]byte(nil), path...)), append([]byte(nil), vn.GetValueBytes()...)})
+						}
+						return nil
+					}, util.NodeTypeValueNode)
+					if err != nil {
+						return ctxKind(err)
+					}
+					return "ok"
+				})
+				cancel2()
+				switch {
+				case is == "ctx":
+				case len(absent) == 0:
+					if is != "ok" || fmtPairs(ps) != fmtPairs(sortedPairs(st.content)) {
+						fail("context cancelled at node read %d of %d: Iterate over the complete store returned %s with %s", n, probe.n, is, fmtPairs(ps))
+					}
+				default:
+					if is == "ok" || is == "panic" {
+						fail("context cancelled at node read %d of %d: Iterate over the damaged store returned %s", n, probe.n, is)
+					}
+				}
+				recs = append(recs, fmt.Sprintf("%d:%s/%s", n, hs, is))
+			}
+			out = "ok " + strings.Join(recs, ";")
+			tags["ctx-cancelled-during-walk"] = true
 		case "repair":
 			v, _ := strconv.ParseInt(f[1], 10, 64)
 			has, miss, donor, m2 := st.repair(st.cur, st.curDir, st.removed, v, r, fail)
@@ -754,10 +885,21 @@ func genC17(r *rand.Rand, tier string, idx int) []string {
 			ops = append(ops, "rm "+strings.Join(xs, ","))
 		}
 		queries()
-		ops = append(ops, fmt.Sprintf("repair %d", repairV()))
-		ops = append(ops, "has", "iter")
+		if g == 0 {
+			ops = append(ops, "cwalk")
+		}
+		if r.Intn(2) == 0 {
+			// the nodes come back through the store; the SAME trie object goes on answering
+			ops = append(ops, "mkeys", "restore "+[]string{"raw", "mergestate", "othertrie"}[r.Intn(3)], "has", "miss", "iter", "mkeys")
+		} else {
+			ops = append(ops, fmt.Sprintf("repair %d", repairV()))
+			ops = append(ops, "has", "iter")
+		}
 		if len(pool) > 0 {
-			ops = append(ops, "get "+ptok(pool[r.Intn(len(pool))]))
+			ops = append(ops, "get "+ptok(pool[r.Intn(len(pool))]), "get "+ptok(pool[r.Intn(len(pool))]))
+		}
+		if g == 1 {
+			ops = append(ops, "cwalk") // over the complete store
 		}
 	}
 	ops = append(ops, "sweep1", "sweepsub")
@@ -834,6 +976,7 @@ func genC17Comb(r *rand.Rand, kind string, ver int64) []string {
 		v := []int64{0, ver0, ver, ver + 2, ver - 1, ver0 + 1}[r.Intn(6)]
 		ops = append(ops, fmt.Sprintf("repair %d", v), "has", "miss")
 	}
+	ops = append(ops, fmt.Sprintf("rm %d", n-3), "has", "mkeys", "restore mergestate", "has", "miss", "mkeys", "cwalk")
 	return append(ops, "iter", "sweep1")
 }
 
